@@ -23,11 +23,13 @@
 (*                     machine does; with the switch off the hit binds)    *)
 (*   AsBuilt.freehit   a memo hit is not charged against the budget        *)
 (*                     (known finding F3)                                  *)
-(* Not covered by this module: left-recursion support and throw/recover    *)
-(* (their meaning is in PegRef and is bound by T1).                        *)
+(* Not covered by this module: left-recursion support (its meaning is in   *)
+(* PegRef and is bound by T1).  throw/recover: the recovery stack rcv.     *)
 (***************************************************************************)
 EXTENDS PegRef
 
+RECURSIVE JoinLabs(_,_)
+JoinLabs(ls, i) == IF i > Len(ls) THEN "" ELSE ls[i] \o (IF i < Len(ls) THEN "," ELSE "") \o JoinLabs(ls, i+1)
 FnName(C, e) ==
   LET n == C.G.nodes[e] IN
   CASE n.k = "lit" -> "parseLitMatcher" [] n.k = "cls" -> "parseCharClassMatcher" [] n.k = "any" -> "parseAnyMatcher"
@@ -36,6 +38,8 @@ FnName(C, e) ==
     [] n.k = "not" -> "parseNotExpr" [] n.k = "label" -> "parseLabeledExpr" [] n.k = "action" -> "parseActionExpr"
     [] n.k = "state" -> "parseStateCodeExpr" [] n.k = "andcode" -> "parseAndCodeExpr" [] n.k = "notcode" -> "parseNotCodeExpr"
     [] n.k = "ref" -> "parseRuleRefExpr " \o C.G.idents[n.rule]
+    [] n.k = "recover" -> "parseRecoveryExpr (" \o JoinLabs(n.labs, 1) \o ")"
+    [] n.k = "throw" -> "parseThrowExpr"
     [] OTHER -> "parse?"
 
 (* read(): advance to the next rune, maintaining line and col incrementally (NOT LineCol: that is the property) *)
@@ -58,7 +62,7 @@ MInit(C) ==
   [stk |-> <<Frame("rule", C.entry)>>, mode |-> "eval", res |-> [ok |-> FALSE, val |-> Nil],
    pt |-> Pt0(C.inp), curpos |-> <<0, 0, 0>>, curtext |-> <<>>, store |-> XInit(C).store, g |-> XInit(C).g,
    vst |-> <<>>, rst |-> <<>>, errs |-> x1.errs, log |-> <<>>, fmax |-> 0, fset |-> {}, finv |-> FALSE,
-   memo |-> {}, cnt |-> 3, ab |-> "none", lbl |-> <<"-", "", 0, 0, 0>>, chk |-> "ok"]
+   memo |-> {}, cnt |-> 3, ab |-> "none", lbl |-> <<"-", "", 0, 0, 0>>, chk |-> "ok", rcv |-> <<>>]
 
 Top(m) == m.stk[Len(m.stk)]
 Pop(m) == SubSeq(m.stk, 1, Len(m.stk) - 1)
@@ -170,6 +174,12 @@ Step(C, m) ==
        [] n.k = "not" -> Call([mc EXCEPT !.vst = PushV(m), !.finv = ~m.finv], f1, n.kids[1])
        [] n.k = "action" -> Call(mc, f1, n.kids[1])
        [] n.k = "ref" -> [mc EXCEPT !.stk = Append(SetTop(m, f1), Frame("rule", n.rule)), !.mode = "eval"]
+       [] n.k = "recover" ->      \* pushRecovery(labels, recoverExpr), then the guarded expression
+            Call([mc EXCEPT !.rcv = Append(m.rcv, [labs |-> n.labs, rec |-> n.kids[2]])], [f1 EXCEPT !.rd0 = Len(m.rcv)], n.kids[1])
+       [] n.k = "throw" ->        \* search the recovery stack from the top for a handler listing the label
+            LET hs == {i \in 1..Len(m.rcv) : \E j \in 1..Len(m.rcv[i].labs) : m.rcv[i].labs[j] = n.lab} IN
+            IF hs = {} THEN [mc EXCEPT !.stk = SetTop(m, [f1 EXCEPT !.ph = 9, !.acc = <<[ok |-> FALSE, val |-> Nil]>>])]
+            ELSE LET i == CHOOSE i \in hs : \A j \in hs : j <= i IN Call(mc, [f1 EXCEPT !.i = i], m.rcv[i].rec)
   ELSE IF f.ph = 9 THEN         \* leave a terminal / code expression: the "<" line
      Leave(C, m, fn, f.acc[1].ok, f.acc[1].val, m.pt, m)
   ELSE
@@ -208,6 +218,13 @@ Step(C, m) ==
                     [m EXCEPT !.curpos = pos, !.curtext = text, !.log = CapAppend(C, m.log, ev), !.g = IF C.asbuilt.acccap > 0 THEN m.g ELSE m.g + n.g,
                               !.errs = IF C.asbuilt.acccap > 0 THEN m.errs ELSE BlockErr(C, m, n, PosOf(f.pt0))])
     [] n.k = "ref" -> Leave(C, m, fn, r.ok, r.val, m.pt, m)
+    [] n.k = "recover" -> Leave(C, m, fn, r.ok, r.val, m.pt, [m EXCEPT !.rcv = SubSeq(m.rcv, 1, Len(m.rcv) - 1)])     \* popRecovery
+    [] n.k = "throw" ->
+         IF r.ok THEN Leave(C, m, fn, TRUE, r.val, m.pt, m)
+         ELSE LET hs == {i \in 1..(f.i - 1) : \E j \in 1..Len(m.rcv[i].labs) : m.rcv[i].labs[j] = n.lab} IN
+              IF hs = {} THEN Leave(C, m, fn, FALSE, Nil, m.pt, m)
+              ELSE LET i == CHOOSE i \in hs : \A j \in hs : j <= i IN
+                   [Call(m, [f EXCEPT !.i = i], m.rcv[i].rec) EXCEPT !.lbl = <<"-", "", 0, 0, 0>>]
 
 (* ---- the outcome of a finished run, in the shape of PegRef's RefOutcome ---------------------- *)
 MOutcome(C, m) ==
